@@ -161,7 +161,11 @@ func layoutShort(l [][]string) string {
 			if j > 0 {
 				b.WriteByte(',')
 			}
-			b.WriteString(n[:strings.Index(n, ":")])
+			if k := strings.Index(n, ":"); k >= 0 {
+				b.WriteString(n[:k])
+			} else {
+				b.WriteString(fmt.Sprintf("%q", n)) // not a node id (an empty slot of a broken layout)
+			}
 		}
 	}
 	return b.String()
